@@ -1021,32 +1021,31 @@ def run(ctx):
     base = ctx.seed * 1000
 
     # ---------------------------------------------------------------- vectorize, direct
+    k7 = ['py', 'a0', 'v', 'm2', 'list', 'str', 'vlong']
     if q:
-        plan = {0: ['py'], 1: ['py', 'a0', 'v', 'm2', 'list', 'str', 'vlong'],
-                2: ['py', 'a0', 'v', 'm2', 'list', 'str', 'vlong'],
-                3: ['py', 'v', 'm2', 'list', 'vlong']}
-        bss = [1, 2, 3]
+        std = dict(bs=[1, 2, 3], rets=['num', 'vec2', 'dict'], kws=['none', 'meta', 'all'])
+        plan = {0: dict(std, kinds=['py']), 1: dict(std, kinds=k7), 2: dict(std, kinds=k7),
+                3: dict(std, kinds=['py', 'v', 'm2', 'list', 'vlong'])}
         dts = ['None', 'float', 'int', 'object', 'False']
-        rets = ['num', 'vec2', 'dict']
-        kws = ['none', 'meta', 'all']
     else:
         full = ['py', 'pyint', 'a0', 'v', 'vi', 'm2', 'm1', 'list', 'tuple', 'str', 'none', 'vlong', 'v1']
-        plan = {0: ['py'], 1: full, 2: full, 3: ['py', 'a0', 'v', 'vi', 'm2', 'list', 'str', 'vlong', 'v1'],
-                4: ['py', 'v', 'm2', 'vlong']}
-        bss = [1, 2, 3, 4]
+        std = dict(bs=[1, 2, 3, 4], rets=['num', 'int', 'vec2', 'dict', 'ragged', 'str', 'none'],
+                   kws=['none', 'meta', 'rs', 'extra', 'all'])
+        plan = {0: dict(std, kinds=['py']), 1: dict(std, kinds=full), 2: dict(std, kinds=full),
+                3: dict(kinds=['py', 'a0', 'v', 'vi', 'm2', 'list', 'vlong'], bs=[1, 2, 3],
+                        rets=['num', 'vec2', 'dict', 'ragged'], kws=['none', 'meta', 'all']),
+                4: dict(kinds=['py', 'v', 'm2', 'vlong'], bs=[1, 2], rets=['num', 'vec2'], kws=['none', 'all'])}
         dts = ['None', 'float', 'int', 'object', 'False', 'float32', 'str']
-        rets = ['num', 'int', 'vec2', 'dict', 'ragged', 'str', 'none']
-        kws = ['none', 'meta', 'rs', 'extra', 'all']
     cases = []
-    for a, kinds in sorted(plan.items()):
+    for a, pl in sorted(plan.items()):
         for mi, mask in enumerate(_masks(a, q)):
             for dt in dts:
-                c = {'kind': 'vec', 'arity': a, 'mask': mask, 'dtype': dt, 'kinds': kinds, 'bs': bss, 'rets': rets,
-                     'kws': kws, 'seed': base + (a + mi) % 5}
+                c = {'kind': 'vec', 'arity': a, 'mask': mask, 'dtype': dt, 'kinds': pl['kinds'], 'bs': pl['bs'],
+                     'rets': pl['rets'], 'kws': pl['kws'], 'seed': base + (a + mi) % 5}
                 cases.append(c)
     ctx.extra['vectorize_alphabet'] = {
-        'input_kinds_by_arity': {str(k): v for k, v in plan.items()}, 'batch_sizes': bss, 'dtypes': dts,
-        'return_kinds': rets, 'kwargs_variants': kws, 'masks': 'None + every subset of positions + one index beyond arity',
+        'by_arity': {str(k): v for k, v in plan.items()}, 'dtypes': dts,
+        'masks': 'None + every subset of positions + one index beyond arity',
         'batch_size': ['given', 'inferred'], 'pool_cases': len(cases)}
     # heavy cases first so the pool balances
     cases.sort(key=lambda c: -len(c['kinds']) ** c['arity'])
